@@ -509,17 +509,17 @@ type vmCase struct {
 // failureKey names the failure: a panic by its (number-free) message and first b6 frame; a wrong result by
 // the program; both prefixed by the class Lang.tla diagnosed for the program, if any.
 func failureKey(text string, got *Obs, cls string) string {
-	key := "vm-mismatch " + text
-	if pm := firstPanic(got); pm != "" {
-		key = panicKey(pm)
-	}
-	if cls == "pe" {
-		if firstPanic(got) == "" {
-			key = "vm-mismatch"
+	pm := firstPanic(got)
+	if pm == "" {
+		if cls == "pe" {
+			return "closure-escaped-from-partial-application: vm-mismatch"
 		}
-		key = "closure-escaped-from-partial-application: " + key
+		return "vm-mismatch " + text
 	}
-	return key
+	if cls == "pe" && strings.Contains(pm, "OpLoad of invalid value") {
+		return "closure-escaped-from-partial-application: " + panicKey(pm)
+	}
+	return panicKey(pm)
 }
 
 func runVM(data json.RawMessage) vh.Verdict {
